@@ -32,6 +32,50 @@ pub fn run(case: &Value) -> Value {
                     }
                 }
             }
+            // the facade on one workspace: lowered, given arguments, lowered again -- `lower` derives the templates from
+            // the source, so what it leaves is what a fresh workspace leaves
+            if let lang::Front::Ok(txs) = lang::lower_source(src) {
+                let r = crate::guarded(|| {
+                    let mut out = vec![];
+                    let mut ws = tx3_lang::Workspace::from_string(src.to_string());
+                    if ws.lower().is_err() {
+                        return out;
+                    }
+                    let mut args = std::collections::BTreeMap::new();
+                    for tx in txs.values() {
+                        for (k, ty) in tx3_tir::reduce::find_params(tx) {
+                            use tx3_tir::model::core::Type;
+                            use tx3_tir::reduce::ArgValue;
+                            let v = match ty {
+                                Type::Int => Some(ArgValue::Int(2_000_000)),
+                                Type::Bool => Some(ArgValue::Bool(true)),
+                                Type::Bytes => Some(ArgValue::Bytes(vec![0xab])),
+                                Type::Address => Some(ArgValue::Address([vec![0x60], vec![0x51; 28]].concat())),
+                                _ => None,
+                            };
+                            if let Some(v) = v {
+                                args.insert(k, v);
+                            }
+                        }
+                    }
+                    let _ = ws.apply_args(&args);
+                    if ws.lower().is_err() {
+                        return out;
+                    }
+                    for name in txs.keys() {
+                        if let Some(t) = ws.tir(name) {
+                            let (bytes, _) = encoding::to_bytes(t);
+                            out.push((name.clone(), hex::encode(crate::ledger::blake2b256(&bytes))));
+                        }
+                    }
+                    out
+                });
+                if let Ok(list) = r {
+                    for (name, digest) in list {
+                        events.push(json!({"ev": "Built", "artifact": format!("tir:{name}"), "where": "workspace: lower, apply_args, lower", "rep": 0, "digest": digest}));
+                    }
+                }
+            }
         }
         "tii" => {
             // relate a .tii file (bytes given as text) to the source it was built from
@@ -62,11 +106,62 @@ pub fn run(case: &Value) -> Value {
                     }
                     None => (vec![], false),
                 };
+                // the client of the interface: everything the file declares is supplied, parameters and parties under
+                // `args`, environment entries under `env`, and the request goes through the service's own parser; every
+                // key the IR requires must come out with a value
+                let (client, client_missing) = match &decoded {
+                    Some(AnyTir::V1Beta0(tx)) => {
+                        use tx3_tir::model::core::Type;
+                        let types = tx3_tir::reduce::find_params(tx);
+                        let sample = |k: &String| -> Option<Value> {
+                            match types.get(k).or_else(|| types.get(&k.to_lowercase())) {
+                                None => Some(json!(1)), // declared, not used by this transaction
+                                Some(Type::Int) => Some(json!(7)),
+                                Some(Type::Bool) => Some(json!(true)),
+                                Some(Type::Bytes) => Some(json!("0xab")),
+                                Some(Type::Address) => Some(json!(format!("60{}", "51".repeat(28)))),
+                                Some(Type::UtxoRef) => Some(json!(format!("{}#1", "07".repeat(32)))),
+                                Some(_) => None,
+                            }
+                        };
+                        let mut args = serde_json::Map::new();
+                        let mut envm = serde_json::Map::new();
+                        let mut expressible = true;
+                        for k in params.iter().chain(parties.iter()) {
+                            match sample(k) {
+                                Some(v) => { args.insert(k.clone(), v); }
+                                None => expressible = false,
+                            }
+                        }
+                        for k in environment.iter() {
+                            match sample(k) {
+                                Some(v) => { envm.insert(k.clone(), v); }
+                                None => expressible = false,
+                            }
+                        }
+                        if !expressible {
+                            ("na".to_string(), vec![])
+                        } else {
+                            let doc = json!({"tir": env.clone(), "args": args, "env": envm});
+                            let r = crate::guarded(|| -> Result<Vec<String>, String> {
+                                let p: tx3_resolver::trp::ResolveParams = serde_json::from_value(doc).map_err(|e| format!("serde: {e}"))?;
+                                let (_, got) = tx3_resolver::trp::parse_resolve_request(p).map_err(|e| format!("{e:?}"))?;
+                                Ok(types.keys().filter(|k| !got.contains_key(*k)).cloned().collect())
+                            });
+                            match r {
+                                Ok(Ok(missing)) => ("ok".to_string(), missing),
+                                Ok(Err(_)) => ("err".to_string(), vec![]),
+                                Err(_) => ("panic".to_string(), vec![]),
+                            }
+                        }
+                    }
+                    None => ("na".to_string(), vec![]),
+                };
                 let fold = |xs: &Vec<String>| -> Vec<String> { xs.iter().map(|x| x.to_lowercase()).collect() };
                 events.push(json!({"ev": "Tii", "outcome": if decoded.is_some() { "ok" } else { "undecodable" }, "tx": txname,
                                    "params": params, "parties": parties, "environment": environment,
                                    "params_folded": fold(&params), "parties_folded": fold(&parties), "environment_folded": fold(&environment),
-                                   "required": required, "tir_matches": matches}));
+                                   "required": required, "tir_matches": matches, "client": client, "client_missing": client_missing}));
             }
         }
         other => events.push(json!({"ev": "Error", "msg": format!("unknown op {other}")})),
